@@ -20,13 +20,13 @@ def longName : List Nat := [76, 79, 78, 71, 50, 54, 48, 32, 84, 88, 84]
 /-- "LEAK    TXT" -/
 def leakName : List Nat := [76, 69, 65, 75, 32, 32, 32, 32, 84, 88, 84]
 
-/-- F17 witness: ordinals `0x54, 19, …, 1`, every unit `'A'`, then the short entry whose checksum they carry -/
+/-- former F17 witness (regression input): ordinals `0x54, 19, …, 1`, every unit `'A'`, then the short entry whose checksum they carry -/
 def f17Witness : List (List Nat) :=
   ((List.range 20).map fun i =>
       lfnSlotBytes (if i = 0 then 0x54 else 20 - i) (lfnChecksum longName) (List.replicate 13 0x41)) ++
     [sfnOf longName]
 
-/-- F18 witness: an abandoned 2-slot run (`0x42`, units `'X'`) directly followed by a complete 1-slot run
+/-- former F18 witness (regression input): an abandoned 2-slot run (`0x42`, units `'X'`) directly followed by a complete 1-slot run
     (`0x41`, units `'a'`) and the short entry -/
 def f18Witness : List (List Nat) :=
   [lfnSlotBytes 0x42 (lfnChecksum leakName) (List.replicate 13 0x58),
@@ -38,7 +38,8 @@ end C17
 
 /-- **C17.1** The reader is a structural recursion on the slot list (so it terminates), and none of its explicit
     panic sites fires: `readDirEntries?` is the same loop with the bounds checks of `buf[pos..pos+13]` (`process`) and
-    `ucs2_units[..len]` (`as_ucs2_units`) written out (`none` = panic); it never returns `none`. -/
+    `ucs2_units[..len]` (`as_ucs2_units`, in `truncate` and on the returned buffer) written out (`none` = panic);
+    it never returns `none`. -/
 theorem dirIter_total (alloc skipVolume : Bool) (slots : List (List Nat)) :
     readDirEntries? alloc skipVolume slots = some (readDirEntries alloc skipVolume slots) :=
   readLoop?_eq alloc skipVolume slots 0 0 _ (WF_new alloc)
@@ -54,37 +55,37 @@ example : readDirEntries? false true C17.f18Witness ≠ none := by
 
 /-! ## 2. name length -/
 
-/-- **C17.2** (as it holds of the code) a returned long name has at most 260 units -/
-theorem name_len_le_260 (alloc skipVolume : Bool) (slots : List (List Nat)) :
-    ∀ e ∈ readDirEntries alloc skipVolume slots, e.units.length ≤ 260 :=
+/-- **C17.2** a returned long name has at most 255 units — every slot list, both buffer variants
+    (since commit 6c58f9d; before it the bound was 260: F17) -/
+theorem name_len_le_255 (alloc skipVolume : Bool) (slots : List (List Nat)) :
+    ∀ e ∈ readDirEntries alloc skipVolume slots, e.units.length ≤ 255 :=
   readLoop_units_le alloc skipVolume slots 0 0 _ (WF_new alloc)
 
-/-- **F17** `name_len_le_255` is false of the code: a crafted 20-slot run is returned as a 260-unit name,
-    in both buffer variants -/
-theorem name_len_255_counterexample :
-    (∀ alloc, readDirEntries alloc true C17.f17Witness =
-        [⟨C17.sfnOf C17.longName, List.replicate 260 0x41, 0, 21⟩]) ∧
-      ¬ (∀ alloc sv slots, ∀ e ∈ readDirEntries alloc sv slots, e.units.length ≤ 255) := by
-  have h : ∀ alloc, readDirEntries alloc true C17.f17Witness =
-      [⟨C17.sfnOf C17.longName, List.replicate 260 0x41, 0, 21⟩] := by decide +kernel
-  refine ⟨h, fun hall => ?_⟩
-  have := hall true true C17.f17Witness _ (by rw [h true]; exact List.mem_singleton.2 rfl)
-  simp only [List.length_replicate] at this
-  omega
+/-- regression (former F17 witness): the crafted 20-slot run of 260 × `'A'` now yields no long name — the entry falls
+    back to its short name — in both variants -/
+theorem name_len_255_regression :
+    ∀ alloc, readDirEntries alloc true C17.f17Witness = [⟨C17.sfnOf C17.longName, [], 0, 21⟩] := by
+  decide +kernel
+
+example : ∀ alloc, ∀ e ∈ readDirEntries alloc true C17.f17Witness, e.longName = none := by
+  intro alloc e he
+  rw [name_len_255_regression alloc] at he
+  rw [List.mem_singleton.1 he]; rfl
 
 /-! ## 3. a long name comes from a complete run directly before the short entry -/
 
-/-- **C17.3** (`Vec` build) if an entry carries a long name then the slots directly before its short slot form a
-    complete run (first slot `0x40 | n`, `n = ` number of slots `≤ 20`, then ordinals `n−1 … 1` unflagged, one
-    checksum, equal to `lfnChecksum(sfn)`), and the name is that run's units with trailing `0x0000`/`0xFFFF`
-    stripped.  (Otherwise `units = []`: the short name is used.) -/
-theorem broken_run_falls_back (skipVolume : Bool) (slots : List (List Nat)) :
-    ∀ e ∈ readDirEntries true skipVolume slots, e.units ≠ [] →
+/-- **C17.3** (both buffer variants, every slot list) if an entry carries a long name then the slots directly before
+    its short slot form a complete run (first slot `0x40 | n`, `n = ` number of slots `≤ 20`, then ordinals `n−1 … 1`
+    unflagged, one checksum, equal to `lfnChecksum(sfn)`), and the name is that run's units with trailing
+    `0x0000`/`0xFFFF` stripped, at most 255 of them.  (Otherwise `units = []`: the short name is used.) -/
+theorem broken_run_falls_back (alloc skipVolume : Bool) (slots : List (List Nat)) :
+    ∀ e ∈ readDirEntries alloc skipVolume slots, e.units ≠ [] →
       ∃ pre R post, slots = pre ++ R ++ e.sfn :: post ∧ e.endIdx = pre.length + R.length + 1 ∧
         CompleteRun (lfnChecksum (sfnName e.sfn)) R ∧ (∀ s ∈ R, slotClass s = .lfn) ∧
-        e.units = stripTrailing (runUnits R) := by
+        e.units = stripTrailing (runUnits R) ∧ e.units.length ≤ 255 := by
   intro e he hne
-  have hspec := readLoop_spec skipVolume slots 0 [] (LongNameBuilder.new true) DeadV_new (Nat.le_refl 0)
+  have hlen := name_len_le_255 alloc skipVolume slots e he
+  have hspec := readLoop_spec alloc skipVolume slots 0 [] (LongNameBuilder.new alloc) (Dead_new alloc) (Nat.le_refl 0)
   simp only [List.length_nil, Nat.sub_zero, runB, List.foldr_nil] at hspec
   unfold readDirEntries at he
   rw [hspec] at he
@@ -94,65 +95,43 @@ theorem broken_run_falls_back (skipVolume : Bool) (slots : List (List Nat)) :
   | some r =>
     obtain ⟨pre, R, post, h1, h2, h3, h4, h5⟩ :=
       specLoop_run_sound skipVolume slots 0 [] [] rfl ⟨[], rfl⟩ (by simp) e' he' r hr
-    refine ⟨pre, R, post, by simpa [specToModel] using h1, h2, h3, h4, ?_⟩
-    simp [specToModel, hr, ← stripTrailing_eq_spec, h5]
+    refine ⟨pre, R, post, by simpa [specToModel] using h1, h2, h3, h4, ?_, hlen⟩
+    simp only [specToModel, hr] at hne ⊢
+    split at hne
+    · exact absurd rfl hne
+    · rename_i hle
+      rw [if_neg hle, ← stripTrailing_eq_spec, h5]
 
-/-- the converse: a complete run directly before a file entry whose checksum it carries IS honoured (both variants) -/
+/-- the converse: a complete run directly before a file entry whose checksum it carries IS honoured (both variants),
+    unless more than 255 units remain after stripping (then: no long name) -/
 theorem complete_run_honoured (alloc skipVolume : Bool) (R : List (List Nat)) (sfn : List Nat)
     (hR : CompleteRun (lfnChecksum (sfnName sfn)) R) (hl : ∀ s ∈ R, slotClass s = .lfn)
     (hsfn : slotClass sfn = .file) :
-    readDirEntries alloc skipVolume (R ++ [sfn]) = [⟨sfn, stripTrailing (runUnits R), 0, R.length + 1⟩] :=
+    readDirEntries alloc skipVolume (R ++ [sfn]) =
+      [⟨sfn, if (stripTrailing (runUnits R)).length > 255 then [] else stripTrailing (runUnits R), 0,
+        R.length + 1⟩] :=
   read_complete_run alloc skipVolume R sfn hR hl hsfn
 
-/-- **F18** C17.3 is false in the fixed-buffer build: `truncate` scans the whole 260-unit array, so the units of an
-    abandoned longer run leak into the next name.  Same slots, `Vec` build: 13 × `'a'`; fixed buffer: 13 × `'a'` followed
-    by the 13 × `'X'` of the abandoned slot. -/
-theorem fixedbuf_leak_counterexample :
-    readDirEntries true true C17.f18Witness =
-        [⟨C17.sfnOf C17.leakName, List.replicate 13 0x61, 0, 3⟩] ∧
-      readDirEntries false true C17.f18Witness =
-        [⟨C17.sfnOf C17.leakName, List.replicate 13 0x61 ++ List.replicate 13 0x58, 0, 3⟩] ∧
-      cleanStarts false C17.f18Witness = false := by
+/-- regression (former F18 witness): an abandoned longer run directly followed by a complete 1-slot run — both variants
+    return the 13 × `'a'` of the complete run and nothing of the abandoned one -/
+theorem fixedbuf_leak_regression :
+    ∀ alloc, readDirEntries alloc true C17.f18Witness =
+      [⟨C17.sfnOf C17.leakName, List.replicate 13 0x61, 0, 3⟩] := by
   decide +kernel
-
-/-- **C17.3, fixed-buffer build, partial.**  Forced hypothesis: no valid `0x40`-flagged long-name slot directly
-    follows another long-name slot (`cleanStarts`) — true of every directory the library writes; off it: F18. -/
-theorem broken_run_falls_back_partial (skipVolume : Bool) (slots : List (List Nat))
-    (hclean : cleanStarts false slots = true) :
-    ∀ e ∈ readDirEntries false skipVolume slots, e.units ≠ [] →
-      ∃ pre R post, slots = pre ++ R ++ e.sfn :: post ∧ e.endIdx = pre.length + R.length + 1 ∧
-        CompleteRun (lfnChecksum (sfnName e.sfn)) R ∧ (∀ s ∈ R, slotClass s = .lfn) ∧
-        e.units = stripTrailing (runUnits R) := by
-  have : readDirEntries true skipVolume slots = readDirEntries false skipVolume slots :=
-    readLoop_equiv skipVolume slots 0 0 false _ _ hclean Sim_new (fun _ => DeadPair_new)
-  rw [← this]
-  exact broken_run_falls_back skipVolume slots
-
-/-- the hypothesis is satisfiable by a non-trivial directory: a generated 2-slot run, its short entry, a deleted
-    slot, another short entry -/
-example : cleanStarts false
-    (lfnGenerate ((List.range 20).map (· + 0x61)) (lfnChecksum C17.leakName) ++
-      [C17.sfnOf C17.leakName, 0xE5 :: List.replicate 31 0, C17.sfnOf C17.longName]) = true := by decide +kernel
 
 /-! ## 4. model = independent specification parser (C01.1 `dirIter_spec`) -/
 
-/-- **C17.4 / C01.1** On EVERY slot list the `Vec`-variant reader returns exactly the entries of the independent
-    backward-scanning specification parser `DirSpec.specEntries` — same short slots, same ranges, and as long name the
-    parser's complete run under the implementation's strip-all-trailing-padding convention (`specToModel`), i.e. modulo
-    the 255-unit cap and the terminator convention of `SpecEntry.name`. -/
-theorem dirIter_spec (skipVolume : Bool) (slots : List (List Nat)) :
-    readDirEntries true skipVolume slots = (DirSpec.specEntries skipVolume slots).map specToModel := by
-  have := readLoop_spec skipVolume slots 0 [] (LongNameBuilder.new true) DeadV_new (Nat.le_refl 0)
+/-- **C17.4 / C01.1** On EVERY slot list, in BOTH buffer variants, the reader returns exactly the entries of the
+    independent backward-scanning specification parser `DirSpec.specEntries` — same short slots, same ranges, and as
+    long name the parser's complete run under the implementation's conventions (`specToModel`: all trailing
+    `0x0000`/`0xFFFF` stripped, dropped if more than 255 units remain). -/
+theorem dirIter_spec (alloc skipVolume : Bool) (slots : List (List Nat)) :
+    readDirEntries alloc skipVolume slots = (DirSpec.specEntries skipVolume slots).map specToModel := by
+  have := readLoop_spec alloc skipVolume slots 0 [] (LongNameBuilder.new alloc) (Dead_new alloc) (Nat.le_refl 0)
   simpa [runB, readDirEntries, DirSpec.specEntries] using this
 
-/-- fixed-buffer build: the same on the `cleanStarts` domain (off it: F18) -/
-theorem dirIter_spec_fixed_partial (skipVolume : Bool) (slots : List (List Nat))
-    (hclean : cleanStarts false slots = true) :
-    readDirEntries false skipVolume slots = (DirSpec.specEntries skipVolume slots).map specToModel := by
-  rw [← dirIter_spec]
-  exact (readLoop_equiv skipVolume slots 0 0 false _ _ hclean Sim_new (fun _ => DeadPair_new)).symm
-
-/-- where the two conventions coincide: a run with well-formed padding whose name does not end in `0xFFFF` -/
+/-- where the implementation's conventions coincide with the specification's `SpecEntry.name`: a run with well-formed
+    padding whose name does not end in `0xFFFF` (F12 is the excluded point) -/
 theorem strip_eq_specName (name : List Nat) (hne : name ≠ []) (hlast : isPad (name.getLast hne) = false)
     (pad : List Nat) (hpad : ∀ x ∈ pad, isPad x = true) : stripTrailing (name ++ pad) = name := by
   rw [stripTrailing_append_pads _ _ hpad, stripTrailing_of_last_good _ hne hlast]
